@@ -27,7 +27,7 @@ RULE = (
     "pythonize_class_name / pythonize_enum_member_name give str.isidentifier() non-keyword names and are idempotent; "
     "on a real message class (public field API) whose field is named pythonize_field_name(n), from_dict({key: v}) sets "
     "that field for key in {camelCase key emitted by to_dict, snake_case key emitted by to_dict, the proto name n}, "
-    "also through to_json/from_json. Non-trivial = name containing an upper-case letter, digit or underscore."
+    "also through to_json/from_json; two related names as fields of one message (sibling_field_pairs) survive a round trip in every casing in which their keys differ. Non-trivial = name containing an upper-case letter, digit or underscore."
 )
 ASSUMPTIONS = ["message classes are built with the public field API; the plugin's own use of these functions is covered by C03"]
 
@@ -142,6 +142,85 @@ def targets(ctx):
                 out.append(("message_with_field_raises", type(e).__name__, f"{n!r} -> field {py!r}: {e}"))
         return out
 
+    # ---- sibling fields: two fields of ONE message whose names are related (one is the other's JSON key, the other
+    # without its underscores, ...): a round trip in a casing in which their keys differ must restore both
+    _pair_cache = {}
+
+    def pair_class(py_a: str, py_b: str):
+        k = (py_a, py_b)
+        c = _pair_cache.get(k)
+        if c is None:
+            c = dataclasses.make_dataclass("PairProbe", [(py_a, int, betterproto.int32_field(1)), (py_b, int, betterproto.int32_field(2))],
+                                           bases=(betterproto.Message,), eq=False, repr=False)
+            if len(_pair_cache) > 3000:
+                _pair_cache.clear()
+            _pair_cache[k] = c
+        return c
+
+    def siblings_of(n: str):
+        from betterproto.casing import camel_case, safe_snake_case
+
+        out = []
+        try:
+            py = naming.pythonize_field_name(n)
+            cands = [camel_case(py).rstrip("_"), safe_snake_case(py), n.replace("_", ""), n.lower(), py, re.sub(r"_(\d)", r"\1", n), re.sub(r"(\d+)", r"_\1", n),
+                     n[:1].upper() + n[1:], n + "_", "_" + n]
+        except Exception:  # noqa: BLE001 - reported by the single-name target
+            return out
+        for s_ in cands:
+            if s_ != n and IDENT.match(s_) and s_ not in out:
+                out.append(s_)
+        return out
+
+    def check_pair(a: str, b: str):
+        """-> list of (clause, where, detail); a, b proto field names of one message"""
+        out = []
+        try:
+            pa, pb = naming.pythonize_field_name(a), naming.pythonize_field_name(b)
+        except Exception:  # noqa: BLE001
+            return out, False
+        if pa == pb or not (valid(pa) and valid(pb)):
+            return out, False  # protoc-level / python-level name clash: not two fields
+        cls = pair_class(pa, pb)
+        used = False
+        try:
+            m = cls(**{pa: 7, pb: 9})
+            for casing_name, casing in (("camel", betterproto.Casing.CAMEL), ("snake", betterproto.Casing.SNAKE)):
+                ka = cls(**{pa: 7}).to_dict(casing)
+                kb = cls(**{pb: 9}).to_dict(casing)
+                if len(ka) != 1 or len(kb) != 1 or set(ka) == set(kb):
+                    continue  # the two fields have the same key in this casing: the output itself is ambiguous
+                used = True
+                d = m.to_dict(casing)
+                back = cls().from_dict(d)
+                if (getattr(back, pa), getattr(back, pb)) != (7, 9):
+                    out.append(("sibling_fields_roundtrip", casing_name, f"fields {a!r} / {b!r} (python {pa!r} / {pb!r}): to_dict -> {d!r} -> from_dict -> {back!r}"))
+                back = cls().from_json(m.to_json(casing=casing))
+                if (getattr(back, pa), getattr(back, pb)) != (7, 9):
+                    out.append(("sibling_fields_json_roundtrip", casing_name, f"fields {a!r} / {b!r}: {m.to_json(casing=casing)} -> {back!r}"))
+                pd = m.to_pydict(casing)
+                back = cls().from_pydict(pd)
+                if (getattr(back, pa), getattr(back, pb)) != (7, 9):
+                    out.append(("sibling_fields_pydict_roundtrip", casing_name, f"fields {a!r} / {b!r}: {pd!r} -> {back!r}"))
+        except Exception as e:  # noqa: BLE001
+            out.append(("message_with_sibling_fields_raises", type(e).__name__, f"{a!r} / {b!r}: {e}"))
+        return out, used
+
+    def pair_ev(case):
+        fails, seen, nt, n_pairs = [], set(), 0, 0
+        for n in case["names"]:
+            for s_ in siblings_of(n):
+                for a, b in ((n, s_), (s_, n)):
+                    found, used = check_pair(a, b)
+                    n_pairs += 1
+                    nt += 1 if used else 0
+                    for clause, where, detail in found:
+                        sig = f"{clause}|{where}|{'+'.join(classes(n))}"
+                        if sig not in seen:
+                            seen.add(sig)
+                            fails.append(Failure(clause, sig, detail, case={"names": [n]}))
+        return Eval(fails, weight=max(1, n_pairs), nontrivial_count=nt, labels=["sibling_pairs"])
+
     def batch_ev(case):
         fails, seen, nt = [], set(), 0
         names = case["names"]
@@ -174,6 +253,20 @@ def targets(ctx):
                 batch = []
         if batch:
             yield {"names": batch}
+
+    def pair_cases():
+        lim = 5 if ctx.thorough else 4
+        batch = []
+        for n in all_names():
+            if len(n) > lim:
+                break
+            batch.append(n)
+            if len(batch) == 100:
+                yield {"names": batch}
+                batch = []
+        if batch:
+            yield {"names": batch}
+        yield {"names": [n for n in REAL_WORLD if IDENT.match(n)] + ["Line_1", "line1", "a_1", "rev_1_0", "rev_10", "top_10", "utf_8", "sha_256"]}
 
     def corpus_cases():
         kw = sorted(set(keyword.kwlist) | set(keyword.softkwlist) | {b for b in dir(builtins) if IDENT.match(b)})
@@ -224,6 +317,8 @@ def targets(ctx):
     return [
         Target("identifiers_exhaustive", batch_ev, cases=exhaustive_cases, exhaustive=True, rule=f"all legal identifiers of length <= {max_len} over {ALPHABET!r}"),
         Target("keywords_builtins_realworld", batch_ev, cases=corpus_cases, exhaustive=True, shard_cases=False),
+        Target("sibling_field_pairs", pair_ev, cases=pair_cases, exhaustive=True,
+               rule="every identifier (length <= 4 quick / 5 thorough, + real-world names) paired in one message with its derived siblings (its own JSON keys, itself without underscores / lower-cased / capitalised / with the underscore before digits moved): a to_dict -> from_dict, to_json -> from_json, to_pydict -> from_pydict round trip restores both fields in every casing in which their keys differ"),
         Target("protoc_legality_probe", protoc_ev, cases=protoc_cases, exhaustive=True, shard_cases=False),
         Target("identifiers_random", batch_ev, strategy=rand, quick=150, thorough=1500),
         _seq.target("C19"),
